@@ -89,8 +89,9 @@ def chk_inj(holder, suite_path, attr, expected, test_path):
     v = holder.get(attr, missing) if isinstance(holder, dict) else getattr(holder, attr, missing)
     if v is missing or isinstance(v, InjectedFixture) or (expected is not None and v != expected):
         hit("inj-miss:%s:%s:%s" % (suite_path, attr, test_path))
-        raise AssertionError("injected attribute %s of suite %s does not hold the value of its fixture: %r" % (attr, suite_path, v))
+        return "injected attribute %s of suite %s does not hold the value of its fixture: %r" % (attr, suite_path, v)
     hit("inj-ok:%s:%s:%s" % (suite_path, attr, test_path))
+    return None
 
 
 # --------------------------------------------------------------------------------------------
@@ -149,6 +150,16 @@ def suite_uses(s, drop=()):
     return [attr_key(s, a) for a in s["attrs"] if attr_class(s, a, fine=False) not in drop] + list(s["setup_args"] or [])
 
 
+def exonerated_by_sibling(s, a, spath, tpath, hits):
+    """some other attribute of suite `s` with the same input class (shape@class|module) that injects the same fixture
+    as `a` held its value when the same test read it"""
+    for b in s["attrs"]:
+        if b is not a and attr_key(s, b) == attr_key(s, a) and attr_class(s, b, fine=False) == attr_class(s, a, fine=False):
+            if ("inj-ok:%s:%s:%s" % (spath, effective_name(s, b), tpath)) in hits:
+                return True
+    return False
+
+
 def dup_keys(s):
     keys = [attr_key(s, a) for a in s["attrs"]]
     return {k for k in keys if keys.count(k) > 1}
@@ -158,8 +169,9 @@ def dup_keys(s):
 # decision tables, extracted by EXECUTING the real loader on every naming shape x place of assignment
 # --------------------------------------------------------------------------------------------
 
-def _probe_suite(ident, place, arg_src):
-    """a real suite holding `ident = lcc.inject_fixture(<arg_src>)` at `place`, loaded by the real loader
+def _probe_suite(ident, place, arg_src, twice=False):
+    """a real suite holding `ident = lcc.inject_fixture(<arg_src>)` at `place` (with `twice`: and a public attribute
+    `zz = lcc.inject_fixture(<arg_src>)` beside it, in the class body / the module), loaded by the real loader
     -> (Suite, holder object or module, name under which Python stores the attribute)"""
     import lemoncheesecake.api as lcc
     from lemoncheesecake.suite import load_suite_from_class, load_suite_from_module
@@ -171,12 +183,14 @@ def _probe_suite(ident, place, arg_src):
         mod = types.ModuleType("K")
         mod.__file__ = os.path.join(tempfile.gettempdir(), "K.py")
         mod.lcc = lcc
-        exec("%s = %s\n@lcc.test('t')\ndef t():\n    pass\n" % (ident, inj), mod.__dict__)
+        exec("%s = %s\n%s@lcc.test('t')\ndef t():\n    pass\n" % (ident, inj, "zz = %s\n" % inj if twice else ""), mod.__dict__)
         suite = load_suite_from_module(mod)
     else:
         src = {"body": "@lcc.suite('K')\nclass K:\n    %s = %s\n",
                "base": "class B_K:\n    %s = %s\n@lcc.suite('K')\nclass K(B_K):\n    pass\n",
                "init": "@lcc.suite('K')\nclass K:\n    def __init__(self):\n        self.%s = %s\n"}[place] % (ident, inj)
+        if twice:
+            src += "    zz = %s\n" % inj
         src += "    @lcc.test('t')\n    def t(self):\n        pass\n"
         ns = {"lcc": lcc}
         exec(src, ns)
@@ -187,6 +201,7 @@ def _probe_suite(ident, place, arg_src):
 def tables(ctx):
     """`discoveryTable` / `assignTable`: (naming shape, place) -> is `ident = lcc.inject_fixture("f")` seen as a fixture use by
     the loaded suite / does `Suite.inject_fixtures` give the attribute its value; one row per representative identifier.
+    `twiceTable`: the same with a public attribute `zz` injecting the SAME fixture beside it -> do BOTH hold the value (D35).
     `keyTable`: inject_fixture() / inject_fixture("") / inject_fixture("f") -> does the attribute's own name name the fixture."""
     lean_shape = {"pub": "Shape.pub", "priv": "Shape.priv", "mangled": "Shape.mangled", "dunder": "Shape.dunder"}
     lean_place = {"body": "Place.body", "base": "Place.base", "init": "Place.init", "module": "Place.module"}
@@ -204,6 +219,18 @@ def tables(ctx):
                 key = "(%s, %s)" % (lean_shape[shape], lean_place[place])
                 disc.append((key, "true" if found else "false", {"ident": ident, "place": place, "discovered": found}))
                 asg.append((key, "true" if got else "false", {"ident": ident, "place": place, "assigned": got}))
+    # the same fixture injected through TWO attributes of the suite (D35): do BOTH receive the value?
+    twice = []
+    for shape in SHAPES:
+        for place in PLACES:
+            for ident in SHAPE_IDENTS[shape]:
+                suite, holder, eff = _probe_suite(ident, place, "'f'", twice=True)
+                names = list(suite.get_injected_fixture_names())
+                suite.inject_fixtures({n: sentinel for n in names})
+                d = holder.__dict__ if place == "module" else vars(holder)
+                both = d.get(eff) is sentinel and d.get("zz") is sentinel
+                twice.append(("(%s, %s)" % (lean_shape[shape], lean_place[place]), "true" if both else "false",
+                              {"ident": ident, "place": place, "beside": "zz", "names": names, "both_assigned": both}))
     keys = []
     for arg_src, lean in (("", "none"), ("''", 'some ""'), ("'f'", 'some "f"')):
         suite, _, _ = _probe_suite("zz", "body", arg_src)
@@ -212,6 +239,7 @@ def tables(ctx):
     imp = ("LccModel.Model.Inject",)
     return [C.Table("discoveryTable", "List ((Shape × Place) × Bool)", disc, imports=imp),
             C.Table("assignTable", "List ((Shape × Place) × Bool)", asg, imports=imp),
+            C.Table("twiceTable", "List ((Shape × Place) × Bool)", twice, imports=imp),
             C.Table("keyTable", "List (Option String × Bool)", keys, imports=imp)]
 
 
@@ -269,9 +297,13 @@ def _test_source(out, pad, s, path, t, preds, vals, module):
     tp = "%s.%s" % (path, t["name"])
     out.append("%s    hit('test:%s')" % (pad, tp))
     # a correct test body READS every injected attribute of its suite and relies on the fixture's value
-    for a in s["attrs"]:
-        out.append("%s    chk_inj(%s, %r, %r, %r, %r)" % (pad, "globals()" if module else "self", path, effective_name(s, a),
-                                                         vals.get(attr_key(s, a)), tp))
+    if s["attrs"]:
+        out.append("%s    bad = [m for m in (" % pad)
+        for a in s["attrs"]:
+            out.append("%s        chk_inj(%s, %r, %r, %r, %r)," % (pad, "globals()" if module else "self", path, effective_name(s, a),
+                                                               vals.get(attr_key(s, a)), tp))
+        out.append("%s    ) if m]" % pad)
+        out.append("%s    assert not bad, bad" % pad)
 
 
 def _suite_source(s, path, ind, preds, vals):
@@ -997,7 +1029,7 @@ def gen_case(rng, defect_rate, run_stream=False):
         for f in rng.sample(usable_suite, min(rng.choice([0, 0, 1, 1, 2, 3]), len(usable_suite))):
             add_attr(s, f, nameless=(f not in BUILTINS and rng.random() < 0.15))
         if s["attrs"] and rng.random() < 0.04:
-            # the same fixture injected through a second attribute of the suite
+            # the same fixture injected through a second attribute of the suite (D35, repaired: both receive the value)
             add_attr(s, attr_key(s, rng.choice(s["attrs"])))
         s["tests"] = [mk_test("t%d" % i) for i in range(rng.randint(1, 4))]
         if depth < 2 and rng.random() < (0.45 if depth == 0 else 0.25):
@@ -1296,9 +1328,12 @@ SHAPE_CORPUS = [
     _inj_case([_a("__ja__", "db")]),
     _inj_case([_a("__ja__", "db", "base")]),
     _inj_case([_a("__ja__", "db", "init")]),
-    # open finding D35: the same fixture injected through two attributes of a suite: only the last one (dir() order) is set
-    _inj_case([_a("ja", "db"), _a("_jb", "db")]),
+    # D35 (repaired in /repo): the same fixture injected through two attributes of a suite — before the repair only the
+    # last one in dir() order was set; EVERY attribute must hold the value (witnesses kept first in both streams)
+    _inj_case([_a("ja", "db"), _a("jb", "db", "base")]),
     _inj_case([_a("db", None), _a("jz", "db", "init")]),
+    _inj_case([_a("ja", "db"), _a("_jb", "db"), _a("__jc", "db", "init")]),
+    _inj_case([_a("_ja", "db", "module"), _a("_jb", "db", "module")], kind="module"),
 ]
 
 CORPUS = SHAPE_CORPUS + [
@@ -1484,8 +1519,10 @@ class Run(C.Stream):
             a = next((x for x in (su["attrs"] if su else []) if effective_name(su, x) == attr), None)
             if a is None:
                 cls, why = "unknown-attribute", ""
-            elif attr_key(su, a) in dup_keys(su):
-                cls, why = "same-fixture-injected-twice", " (another attribute of the suite injects the same fixture)"
+            elif exonerated_by_sibling(su, a, spath, tpath, run["hits"]):
+                # another attribute of the SAME input class injecting the SAME fixture held its value in this very read:
+                # not the shape / place, the double injection is to blame (D35)
+                cls, why = "same-fixture-injected-twice", " (another attribute of the suite injects the same fixture and holds the value)"
             else:
                 cls, why = attr_class(su, a, fine=False), " (%s, assigned in %s)" % (shape_of(a["ident"]), a["place"])
             if cls not in seen_cls:
@@ -1592,7 +1629,6 @@ class Run(C.Stream):
                         e = effective_name(s, a)
                         if not any(("inj-ok:%s:%s:%s" % (spath, e, tp)) == h or ("inj-miss:%s:%s:%s" % (spath, e, tp)) == h for h in run["hits"]):
                             return "test %s ran but did not read attribute %s" % (tp, e)
-                        break      # (a body stops at its first failing read)
         return None
 
     def nontrivial(self, case, obs):
